@@ -41,3 +41,55 @@ Proof.
   intros sel H. unfold select_row. fold sel. replace (rr_cat sel <=? 1)%N with false; [reflexivity|].
   symmetry. apply N.leb_gt. exact H.
 Qed.
+
+(* ---------------------------------------------------------------- one encoding family *)
+Lemma has_spec l x : has l x = true <-> In x l.
+Proof.
+  unfold has. rewrite existsb_exists. split.
+  - intros [y [I E]]. apply N.eqb_eq in E. subst y. exact I.
+  - intros I. exists x. split; [exact I | apply N.eqb_refl].
+Qed.
+
+Lemma has_remove l fs x : has (remove l fs) x = has l x && negb (has fs x).
+Proof.
+  apply Bool.eq_iff_eq_true. rewrite andb_true_iff, !has_spec. unfold remove. rewrite filter_In. reflexivity.
+Qed.
+
+Lemma has_any_remove_mono l fs gs : has_any (remove l fs) gs = true -> has_any l gs = true.
+Proof.
+  unfold has_any. intros H. apply existsb_exists in H as [x [I Hx]]. apply existsb_exists. exists x. split; [exact I|].
+  rewrite has_remove in Hx. apply andb_true_iff in Hx. apply Hx.
+Qed.
+
+Lemma has_any_remove_sub l fs gs : (forall x, In x gs -> has fs x = true) -> has_any (remove l fs) gs = false.
+Proof.
+  intros H. unfold has_any. apply not_true_is_false. intros E. apply existsb_exists in E as [x [I Hx]].
+  rewrite has_remove, (H x I) in Hx. rewrite andb_false_r in Hx. discriminate.
+Qed.
+
+Lemma step_exclusive C q ii mask high X :
+  has_any (feat_step_avx512 C q ii mask high X) (avx_class C) && has_any (feat_step_avx512 C q ii mask high X) (avx512_class C) = false.
+Proof.
+  unfold feat_step_avx512. destruct (has_any X (avx_class C) && has_any X (avx512_class C)) eqn:E; [|exact E].
+  destruct (feat_use_evex C q ii mask high).
+  - rewrite has_any_remove_sub; [reflexivity|]. intros x I. unfold has. apply existsb_exists. exists x. split; [exact I | apply N.eqb_refl].
+  - rewrite (has_any_remove_sub X _ (avx512_class C)); [apply andb_false_r|].
+    intros x I. unfold has. apply existsb_exists. exists x. split; [|apply N.eqb_refl].
+    unfold avx512_class in I. simpl in I. simpl. tauto.
+Qed.
+
+(* for every table, instruction and operand tuple: the reported set never names an AVX-class extension (AVX, AVX2, FMA, F16C, AVX_VNNI, AVX_IFMA,
+   AVX_NE_CONVERT) together with an AVX-512 one - query_features always commits to one encoding family *)
+Theorem query_features_one_family T C q rep :
+  query_features T C q = Some rep -> has_any rep (avx_class C) && has_any rep (avx512_class C) = false.
+Proof.
+  unfold query_features. intros H.
+  destruct (negb (q_id q <? N.of_nat (length (t_inst T)))); [discriminate|].
+  destruct (take_nonzero _) as [|f0 fr]; [injection H as <-; reflexivity|].
+  destruct (reg_analysis (q_arch64 q) (q_ops q)) as [mask high].
+  injection H as <-.
+  match goal with |- context [feat_step_avx512 C q ?ii mask high ?X] => pose proof (step_exclusive C q ii mask high X) as S; set (Y := feat_step_avx512 C q ii mask high X) in * end.
+  destruct (has_rt mask rt_vec512); [|exact S].
+  apply andb_false_iff in S. apply andb_false_iff. destruct S as [S | S]; [left | right];
+    apply not_true_is_false; intros E; apply has_any_remove_mono in E; rewrite E in S; discriminate.
+Qed.
